@@ -29,7 +29,9 @@ SCTP_CLONES = {"quick": ['rand13'], "thorough": ['rand14', 'rand15']}
 STATES = ["none", "connected", "ready", "waiting_dwa", "disconnecting", "closed",
           # two connections of the peer complete the exchange; then the first one (the one the node has been using)
           # gets a DPR / is closed: the peer still has a ready connection
-          "two_conns_first_dpr", "two_conns_first_closed", "two_conns_second_closed"]
+          "two_conns_first_dpr", "two_conns_first_closed", "two_conns_second_closed",
+          # a watchdog request of the node is outstanding when the peer's DPR arrives; the DWA comes afterwards
+          "disconnecting_late_dwa"]
 PLANS = ["prompt", "late", "dup", "unknown", "wrong_e2e", "wrong_hbh", "never"]
 CALLBACKS = ["default", "first", "last", "seeded"]
 R1, R2 = "verif.example", "other.example"
@@ -83,7 +85,7 @@ class Case:
         peers = []
         for p, st in zip(cfg["peers"], cfg["states"]):
             pc = dict(p)
-            pc["timers"] = {"idle_timeout": 5 if st == "waiting_dwa" else 10 ** 6}
+            pc["timers"] = {"idle_timeout": 5 if st in ("waiting_dwa", "disconnecting_late_dwa") else 10 ** 6}
             peers.append(pc)
         self.w = World(dict(peers=peers, apps=[dict(a) for a in cfg["apps"]],
                             node={"idle_timeout": 10 ** 6, "dwa_timeout": 10 ** 6}))
@@ -112,6 +114,11 @@ class Case:
     def ready_now(self, name):
         p = self.conn.get(name)
         if p is None or p.closed or p.node_sock.closed:
+            return False
+        # ground truth from the history, not from the library's state field: a connection that never completed the
+        # exchange, or on which the DPR exchange has taken place, is not ready whatever its state field says
+        st = self.cfg["states"][[q["name"] for q in self.cfg["peers"]].index(name)]
+        if st in ("none", "connected", "disconnecting", "closed", "disconnecting_late_dwa"):
             return False
         c = self.h.conn_of(p)
         from diameter.node.peer import PEER_READY_STATES
@@ -171,7 +178,7 @@ class Case:
                 else:
                     self.extra[p["name"]] = sp
                     self.conn[p["name"]] = sp2     # the connection that remains
-        if "waiting_dwa" in self.cfg["states"]:
+        if "waiting_dwa" in self.cfg["states"] or "disconnecting_late_dwa" in self.cfg["states"]:
             h.advance(6)
             h.settle()
         for p, st in zip(self.cfg["peers"], self.cfg["states"]):
@@ -180,6 +187,13 @@ class Case:
                 sp.send(M.dpr(p["name"], p["realm"], hbh=2, e2e=2))
             elif st == "closed":
                 sp.close()
+            elif st == "disconnecting_late_dwa":
+                sp.drain()
+                d = [x for x in sp.frames if x.h.code == 280 and x.is_request]
+                sp.send(M.dpr(p["name"], p["realm"], hbh=2, e2e=2))
+                h.settle()
+                if d:
+                    sp.send(M.dwa(p["name"], p["realm"], hbh=d[-1].h.hbh, e2e=d[-1].h.e2e))
             elif st == "two_conns_first_dpr":
                 self.extra[p["name"]].send(M.dpr(p["name"], p["realm"], hbh=2, e2e=2))
             elif st in ("two_conns_first_closed", "two_conns_second_closed"):
